@@ -65,6 +65,7 @@ func initProperties() {
 			Decides: "the clause `a path that does not fit the value's shape or the descriptor yields an error result, never a panic` and error propagation of the read walkers: descriptor lookups are nil-checked before use (NILLOOKUP), no fallible call's error is dropped or swallowed (DROPERR, ERRSWALLOW), size-guarded cursor functions get positive sizes (PANICARG), container counts are bounded (ALLOCBOUND), every search loop consumes (LOOPPROGRESS) and the unknown-field branches skip (UNKNOWNSKIP) — over package thrift/generic and the thrift skip/readers it uses.",
 			NotDec:  "that offsets, spans and values returned are the right ones (chained skip arithmetic is value-level); typed/untyped agreement; effect of each read option.",
 			Uses: uses(
+				use("FIELDLOOPEXIT", "a struct is read to its STOP byte", anyOf(thriftGeneric, thriftPkg)),
 				use("MULTICASEADDR", "an unhashable map key is boxed as a pointer to its concrete type", thriftGeneric),
 				use("OPTSFORWARD", "the caller's options reach every part of the result", thriftGeneric),
 				use("ITERKIND", "a typed key reader checks the map's key type first", thriftGeneric),
@@ -135,6 +136,8 @@ func initProperties() {
 			Decides: "balanced `{}`/`[]` on every success path of the t2j walkers (JSONPAIR — a necessary condition of `never malformed JSON with a nil error`), member keys come from one FieldDescriptor accessor everywhere (KEYSRC), thrift type switches are exhaustive (KINDEXH), unknown fields are an error exactly when disallowed and are otherwise skipped (NEGPOLARITY, UNKNOWNSKIP), no error dropped (DROPERR), loops consume (LOOPPROGRESS).",
 			NotDec:  "comma placement, numeric and string exactness (value-level).",
 			Uses: uses(
+				use("LASTBYTEPATCH", "no container is closed by overwriting the last byte unconditionally", nil),
+				use("FIELDLOOPEXIT", "a struct is converted to its STOP byte: no field loop is left early", nil),
 				use("B64STD", "binary is written and read in the standard base64 alphabet", nil),
 				use("NOCAPREAD", "a reader never looks beyond len(Buf)", inPkgs("conv/t2j", "thrift")),
 				use("NOGOQUOTE", "keys and strings are quoted as JSON, not as Go literals", nil),
@@ -326,6 +329,7 @@ func initProperties() {
 			Decides: "balanced JSON on every success path of p2j (JSONPAIR), every legal map-key kind is quoted (MAPKEYQUOTE), unsigned kinds are not routed through a signed formatter (SIGNCONV), the kind switch covers the 15 scalar kinds + MESSAGE (KINDEXH), list/map loops consume and stop on errors (LOOPPROGRESS, DROPERR), unknown = error iff disallowed (NEGPOLARITY).",
 			NotDec:  "float exactness, comma placement.",
 			Uses: uses(
+				use("LASTBYTEPATCH", "no container is closed by overwriting the last byte unconditionally", nil),
 				use("NOCAPREAD", "the narrowed buffer of a sub-message is restored from the saved slice, not from its capacity", inPkgs("conv/p2j", "proto/binary")),
 				use("B64STD", "bytes fields are written in the standard base64 alphabet", nil),
 				use("DONILNIL", "no converter answers (nil, nil): an empty message is {}", inPkgs("conv/p2j")),
@@ -609,6 +613,7 @@ func initProperties() {
 			Decides: "skip width = read width = write width per fixed-size type (WIDTHTABLE), container/field headers precede elements in the generic writers (HDRFIRST), structs are closed with STOP (STRUCTPAIR), casted values are the ones written (CASTUSED), precomputed header/footer issue the same writer sequence as WrapBinaryBody (SEQAGREE), type switches exhaustive (KINDEXH), counts bounded (ALLOCBOUND), no size panics (PANICARG).",
 			NotDec:  "value round-trips.",
 			Uses: uses(
+				use("FIELDLOOPEXIT", "a struct is read to its STOP byte", thriftPkg),
 				use("NOCAPREAD", "fixed-width reads are bounded by len(Buf)", thriftPkg),
 				use("INTSWITCHCOVER", "the Go-value writer accepts every integer width the reader produces", nil),
 				use("MAPHDRORDER", "a map header is key type, value type, count", thriftPkg),
